@@ -20,7 +20,25 @@ var acrhBuilds int
 
 func acrhHandler(names []string) http.Handler {
 	acrhBuilds++
-	m := buildVia(cors.Config{Origins: []string{"https://example.com"}, RequestHeaders: names}, acrhBuilds)
+	// the REST of the configuration varies too (period 7, the ways of arriving at it have period 6): none of it has a say in
+	// which request-header lists are approved
+	cfg := cors.Config{Origins: []string{"https://example.com"}, RequestHeaders: names}
+	switch acrhBuilds % 7 {
+	case 1:
+		cfg.Methods = []string{"*"}
+	case 2:
+		cfg.Methods, cfg.Credentialed = []string{"PUT", "DELETE"}, true
+	case 3:
+		cfg.Methods, cfg.MaxAgeInSeconds = []string{"PATCH", "*"}, 30
+	case 4:
+		cfg.ResponseHeaders, cfg.PreflightSuccessStatus = []string{"X-Exposed"}, 200
+	case 5:
+		cfg.Credentialed, cfg.Methods, cfg.MaxAgeInSeconds = true, []string{"*"}, -1
+	case 6:
+		cfg.Origins = []string{"https://*.example.com:*", "https://example.com", "http://localhost:8080"}
+		cfg.ResponseHeaders = []string{"*"}
+	}
+	m := buildVia(cfg, acrhBuilds)
 	if m == nil {
 		fatal("configuration with RequestHeaders %q rejected", names)
 	}
